@@ -30,6 +30,7 @@ type c15Case struct {
 	Disk     bool   `json:"disk"`               // run on a real directory with a canary tree
 	Abs      bool   `json:"abs,omitempty"`      // name is made absolute by prefixing the scratch root
 	Intact   bool   `json:"intact,omitempty"`   // declared files lying directly in the archive directory are present with their original bytes
+	Zero     bool   `json:"zero,omitempty"`     // the hostile entry declares a file of length 0 (nothing to reconstruct, but something to create)
 	NonSaved bool   `json:"nonsaved,omitempty"` // PAR1: the hostile entry is listed but not saved in the parity set (status bit 0 clear)
 	Dmg      bool   `json:"dmg,omitempty"`      // damaged copies of the declared files are present in the archive directory (else they are missing)
 }
@@ -86,6 +87,7 @@ func c15Gen(g *core.Gen) {
 	for _, f := range []string{"p2", "p1"} {
 		for _, n := range names {
 			for pos := 0; pos < 2; pos++ {
+				g.Emit(&c15Case{Fmt: f, Name: n, Pos: pos, Zero: true})
 				for _, dmg := range []bool{false, true} {
 					g.Emit(&c15Case{Fmt: f, Name: n, Pos: pos, Dmg: dmg})
 					if f == "p1" {
@@ -165,13 +167,27 @@ func c15Run(ci interface{}, r *core.Rec) {
 	names := []string{"good.bin", "good2.bin"}
 	names[c.Pos] = hostile
 	datas := [][]byte{scen.Content("uniq", r.Seed, 0, 9, 4), scen.Content("uniq", r.Seed, 1, 6, 4)}
+	if c.Zero {
+		datas[c.Pos] = []byte{}
+	}
 
 	files := map[string][]byte{} // archive files (relative to arch)
 	var index string
 	if c.Fmt == "p2" {
 		set := rpar2.NewSet(4, []rpar2.FileSpec{{Name: names[0], Data: datas[0]}, {Name: names[1], Data: datas[1]}})
-		files["s.par2"] = rpar2.Join(set.CorePackets("refwriter")...)
-		pk := set.CorePackets("refwriter")
+		core2 := set.CorePackets("refwriter")
+		if c.Zero {
+			// a zero-length file has no slices: writers leave its (empty) checksum packet out
+			core2 = [][]byte{set.CreatorPacket("refwriter"), set.MainPacket()}
+			for _, f := range set.Files {
+				core2 = append(core2, set.DescPacket(f))
+				if len(f.Data) > 0 {
+					core2 = append(core2, set.IFSCPacket(f))
+				}
+			}
+		}
+		files["s.par2"] = rpar2.Join(core2...)
+		pk := append([][]byte{}, core2...)
 		for e := 0; e < set.SliceCount(); e++ {
 			pk = append(pk, set.RecvPacket(uint32(e), set.RecoveryBlock(e)))
 		}
@@ -385,7 +401,7 @@ func init() {
 	core.Register(&core.Prop{
 		ID:    "C15",
 		Level: "model_checking",
-		Rule: "bounded-exhaustive declared names: every path built from components {a, .., ., empty, a.., ..a} of length 1-4 (thorough 1-5), each with/without a leading and a trailing slash, plus backslash, NUL, drive-letter, UNC, long-traversal and non-ASCII (UTF-8, Latin-1, invalid UTF-8) spellings and absolute paths into a canary tree; in each position of a 2-file set; PAR1 and PAR2 archives written by the reference writers as fully repairable sets whose declared files are x {missing, present in the archive directory but damaged, present and intact (PAR1)}; real Verify (PAR1: also with the full parity check) and Repair; PAR1 also with the hostile entry listed but not saved in the parity set. Real-directory runs execute from a third directory inside the canary tree, so anything resolved against the current directory is seen. All names run on the recording in-memory filesystem; names shorter than 9 characters (thorough: 12) additionally on a real directory with a canary tree (byte snapshot of everything around the archive directory before/after). PAR2 Create with inputs outside the index directory in 10 spellings. " +
+		Rule: "bounded-exhaustive declared names: every path built from components {a, .., ., empty, a.., ..a} of length 1-4 (thorough 1-5), each with/without a leading and a trailing slash, plus backslash, NUL, drive-letter, UNC, long-traversal and non-ASCII (UTF-8, Latin-1, invalid UTF-8) spellings and absolute paths into a canary tree; in each position of a 2-file set; PAR1 and PAR2 archives written by the reference writers as fully repairable sets whose declared files are x {missing, present in the archive directory but damaged, present and intact (PAR1)}; the hostile entry also declared with length 0; real Verify (PAR1: also with the full parity check) and Repair; PAR1 also with the hostile entry listed but not saved in the parity set. Real-directory runs execute from a third directory inside the canary tree, so anything resolved against the current directory is seen. All names run on the recording in-memory filesystem; names shorter than 9 characters (thorough: 12) additionally on a real directory with a canary tree (byte snapshot of everything around the archive directory before/after). PAR2 Create with inputs outside the index directory in 10 spellings. " +
 			"Oracle: every write path, cleaned, lies inside the index directory tree (PAR1: directly in it); nothing outside changes or appears; Create refuses. non-trivial = every case (each declares a hostile or boundary name)",
 		Assumptions: []string{"reads outside the directory are counted in evidence but are not an alarm (the statement constrains create/modify/delete)", "Linux path semantics: backslash is an ordinary character"},
 		NewCase:     func() interface{} { return &c15Case{} },
